@@ -543,13 +543,13 @@ class PathEval:
     def explore(self, start, env0, stop=()):
         """run from the beginning of block `start`.  -> (arrivals {stop bb: [env]}, returns [env], complete)"""
         b = self.b
-        arrivals = {}; returns = []; seen = set(); work = [(start, dict(env0))]
+        arrivals = {}; returns = []; seen = set(); work = [(start, dict(env0))]; self.visited = set()
         n = 0
         while work:
             bi, env = work.pop()
             key = (bi, frozenset((k, repr(v)) for k, v in env.items()))
             if key in seen: continue
-            seen.add(key); n += 1
+            seen.add(key); n += 1; self.visited.add(bi)
             if n > self.max_states: return arrivals, returns, False
             blk = b.blocks[bi]
             env = dict(env)
@@ -602,6 +602,275 @@ def false_leads_to_error(ctx, body, call, value=False):
     if any(result_kind(e) == 'ok' for e in rets): return False
     if not complete: return None
     return bool(rets)
+
+
+# ------------------------------------------------------------------------------------------------
+# dominance / must-pass decided on feasible paths
+# ------------------------------------------------------------------------------------------------
+# After a helper that returns Result has been inlined (or an adaptor closure spliced), its `?` / `return Err(..)` assigns the
+# helper's result and joins the success path in front of the caller's `Try::branch`; in the plain CFG the error path then
+# seems to continue on the Continue arm, by-passing everything the helper did.  These variants first ask the CFG and, when
+# it says no, walk the feasible paths (PathEval knows that a from_residual / Err value takes the Break arm).
+def dominates_ok(ctx, body, bbs):
+    """every successful return passes one of the blocks `bbs`"""
+    bbs = {bbs} if isinstance(bbs, int) else set(bbs)
+    oks = body.strict_ok_exits()
+    if any(all(body.dominates(b, e) for e in oks) for b in bbs): return True
+    arr, rets, complete = PathEval(ctx, body).explore(0, {}, stop=bbs)
+    return complete and not any(result_kind(e) == 'ok' for e in rets)
+
+
+def dominates_sem(ctx, body, a, b):
+    """every feasible path from the entry to block b passes block a"""
+    if a == b or body.dominates(a, b): return True
+    pe = PathEval(ctx, body)
+    arr, rets, complete = pe.explore(0, {}, stop={a})
+    return complete and b not in pe.visited
+
+
+def must_pass_sem(ctx, body, start, targets, via, env=None):
+    """every feasible path from `start` to a block of `targets` passes a block of `via`"""
+    if T.must_pass(body, start, set(targets), set(via)): return True
+    if start in via: return True
+    arr, rets, complete = PathEval(ctx, body).explore(start, env or {}, stop=set(targets) | set(via))
+    return complete and not any(arr.get(t) for t in targets if t not in via)
+
+
+def loop_must2(ctx, rule, body, lo, call_pred, what):
+    """T-LOOPMUST (common.loop_must) with the must-pass decided on feasible paths"""
+    c, header, some_bb, none_bb, blocks = lo
+    via = {x.bb for x in body.calls if x.bb in blocks and call_pred(x)}
+    ctx.counters['cfg_paths'] += 1
+    ok = bool(via) and must_pass_sem(ctx, body, some_bb, {header}, via)
+    ctx.check(ok, rule, 'T-LOOPMUST', body.name, 'a path through the loop body skips `%s`' % what if via else 'loop body never reaches `%s`' % what, body.site(c.bb))
+    si = ctx.S.slice_operand(body, c.args[0])
+    restr = sorted({x.item for x in si.call_objs if x.item in RESTRICTING and 'Iterator' in (x.trait or '')})
+    ctx.check(not restr, rule + '/all-items', 'T-LOOPMUST', body.name, 'the loop iterator is restricted by %s' % restr, body.site(c.bb))
+    return ok
+
+
+def mustcall2(ctx, rule, body, call_pred, what, propagate=True):
+    """T-MUSTCALL (common.mustcall): every successful return passes a call matching call_pred whose error propagates"""
+    if body is None: return None
+    good = []
+    for c in [c for c in body.calls if call_pred(c)]:
+        if not dominates_ok(ctx, body, c.bb): continue
+        if propagate and not T.try_arms(body, c.dst['l']):
+            res = T.errflow(body, c.dst['l'])
+            if any(k == 'bad' for k, _ in res):
+                is_opt = body.locals[c.dst['l']].startswith('std::option::Option')
+                arr, rets, complete = PathEval(ctx, body).explore(c.target, {c.dst['l']: ('d', 0, None) if is_opt else ('d', 1, None)}) if c.target >= 0 else ({}, [], False)
+                if not (complete and rets and all(result_kind(e) == 'err' for e in rets)): continue
+        good.append(c)
+    ctx.check(bool(good), rule, 'T-MUSTCALL', body.name, 'no call `%s` on every successful path%s' % (what, ' with its error propagated' if propagate else ''),
+              body.site(good[0].bb) if good else body.site())
+    return good[0] if good else None
+
+
+# ------------------------------------------------------------------------------------------------
+# concrete evaluation of small pure f64 functions (truth tables instead of expression shapes)
+# ------------------------------------------------------------------------------------------------
+class Unsupported(Exception):
+    pass
+
+
+def concrete_eval(F, body, args, depth=0):
+    """Interpret the mini-MIR of a side-effect free function over f64 / bool / plain structs on concrete arguments
+    (nothing of the library is executed; this is evaluation of the extracted facts).  args[i] is the value of parameter i+1:
+    float, bool or {field: value} for a struct (references are transparent).  Raises Unsupported on anything else, so a
+    rule can fall back to its structural form."""
+    import math
+    env = {i + 1: a for i, a in enumerate(args)}
+    def place(pl):
+        if pl['l'] not in env: raise Unsupported('unset local')
+        v = env[pl['l']]
+        for p in pl['p']:
+            if p == '*': continue
+            if isinstance(p, dict) and 'f' in p and isinstance(v, dict) and p['f'] in v: v = v[p['f']]
+            elif isinstance(p, dict) and 'f' in p and isinstance(v, tuple) and v and v[0] == 'tuple' and p['f'].isdigit(): v = v[1][int(p['f'])]
+            else: raise Unsupported('projection')
+        return v
+    def operand(o):
+        if o['k'] == 'const':
+            t = o['v'].replace('const ', '').strip()
+            if t == 'true': return True
+            if t == 'false': return False
+            x = T.f64_const(t)
+            if x is None: raise Unsupported('const ' + t)
+            return x
+        if o['k'] in ('copy', 'move'): return place(o['pl'])
+        raise Unsupported('operand')
+    BIN = {'Add': lambda a, b: a + b, 'Sub': lambda a, b: a - b, 'Mul': lambda a, b: a * b, 'Div': lambda a, b: a / b,
+           'Lt': lambda a, b: a < b, 'Le': lambda a, b: a <= b, 'Gt': lambda a, b: a > b, 'Ge': lambda a, b: a >= b,
+           'Eq': lambda a, b: a == b, 'Ne': lambda a, b: a != b, 'BitAnd': lambda a, b: a and b, 'BitOr': lambda a, b: a or b}
+    bi = 0
+    for _ in range(400):
+        blk = body.blocks[bi]
+        for st in blk['st']:
+            if 'dst' not in st: continue
+            if st['dst']['p']: raise Unsupported('partial write')
+            rv = st['rv']; k = rv['k']
+            if k == 'use': v = operand(rv['ops'][0])
+            elif k == 'ref': v = place(rv['pl'])
+            elif k == 'bin' and rv['op'] in BIN: v = BIN[rv['op']](operand(rv['ops'][0]), operand(rv['ops'][1]))
+            elif k == 'un' and rv['op'] == 'Not': v = not operand(rv['ops'][0])
+            elif k == 'un' and rv['op'] == 'Neg': v = -operand(rv['ops'][0])
+            elif k == 'agg' and rv['adt'] == 'tuple': v = ('tuple', [operand(o) for o in rv['ops']])
+            elif k == 'agg' and 'RangeInclusive' in rv['adt'] and len(rv['ops']) >= 2: v = ('range', operand(rv['ops'][0]), operand(rv['ops'][1]), True)
+            elif k == 'agg' and re.search(r'ops::Range$', rv['adt']) and len(rv['ops']) == 2: v = ('range', operand(rv['ops'][0]), operand(rv['ops'][1]), False)
+            else: raise Unsupported('rvalue ' + k)
+            env[st['dst']['l']] = v
+        t = blk['term']; k = t['k']
+        if k == 'return':
+            if 0 not in env: raise Unsupported('no result')
+            return env[0]
+        if k in ('goto', 'drop', 'assert'): bi = t['t']; continue
+        if k == 'switch':
+            d = operand(t['d']); d = int(d) if isinstance(d, bool) else d
+            if not isinstance(d, int): raise Unsupported('switch on non-integer')
+            bi = {v: tg for v, tg in t['ts']}.get(d, t['else']); continue
+        if k == 'call':
+            if t['t'] < 0: raise Unsupported('diverging call')
+            nm = t['r'] or t['f']; base = T.strip_generics_tail(nm); a = [operand(x) for x in t['args']]
+            num = lambda x: isinstance(x, float) or isinstance(x, int) and not isinstance(x, bool)
+            if re.search(r'<impl f64>::abs$', base) and num(a[0]): v = abs(a[0])
+            elif re.search(r'<impl f64>::(max|min)$', base) and all(num(x) for x in a[:2]):
+                x, y = a[0], a[1]
+                v = (y if math.isnan(x) else x if math.isnan(y) else (max(x, y) if base.endswith('max') else min(x, y)))
+            elif re.search(r'<impl f64>::clamp$', base) and all(num(x) for x in a[:3]): v = min(max(a[0], a[1]), a[2])
+            elif re.search(r'<impl f64>::is_nan$', base): v = math.isnan(a[0])
+            elif re.search(r'<impl f64>::is_finite$', base): v = math.isfinite(a[0])
+            elif T.NOT_CALL.search(nm) and isinstance(a[0], bool): v = not a[0]
+            elif re.search(r'RangeInclusive::<f64>::new$', base) and len(a) == 2: v = ('range', a[0], a[1], True)
+            elif re.search(r'Range(Inclusive)?::<f64>::contains', base) and isinstance(a[0], tuple) and a[0][0] == 'range':
+                v = a[0][1] <= a[1] and (a[1] <= a[0][2] if a[0][3] else a[1] < a[0][2])
+            elif re.search(r'as std::cmp::PartialOrd.*>::(lt|le|gt|ge)$', base) and all(num(x) for x in a[:2]):
+                v = BIN[{'lt': 'Lt', 'le': 'Le', 'gt': 'Gt', 'ge': 'Ge'}[base.split('::')[-1]]](a[0], a[1])
+            else:
+                cb = F.bodies.get(t.get('rp') or t.get('fp') or '') or F.bodies.get(nm)
+                if cb is None or cb.kind != 'fn' or depth >= 3: raise Unsupported('call ' + nm[:60])
+                v = concrete_eval(F, cb, a, depth + 1)
+            if t['dst']['p']: raise Unsupported('partial write')
+            env[t['dst']['l']] = v; bi = t['t']; continue
+        raise Unsupported('terminator ' + k)
+    raise Unsupported('too long')
+
+
+def truth_table(F, body, points, spec):
+    """-> (None, why) if the function cannot be interpreted, else (list of mismatches (args, got, want), '')"""
+    bad = []
+    try:
+        for args in points:
+            got = concrete_eval(F, body, list(args)); want = spec(*args)
+            if got != want: bad.append((args, got, want))
+    except Unsupported as e:
+        return None, str(e)
+    except (ZeroDivisionError, TypeError, KeyError, IndexError) as e:
+        return None, repr(e)
+    return bad, ''
+
+
+# ------------------------------------------------------------------------------------------------
+# the struct a function returns, field by field
+# ------------------------------------------------------------------------------------------------
+def _is_ty(ty, adt):
+    ty = ty.strip()
+    return ty == adt or ty.endswith('::' + adt)
+
+
+class StructValue:
+    """Final value of the struct of type `adt` a function returns, resolved per field whatever way it was built:
+         S { a: x, b: y }                          one aggregate
+         S { a: x, ..base }                        update syntax (MIR: aggregate whose other operands read base.f) -> field of `base`
+         let mut s = base; s.a = x;                field assignment after construction (the write must lie on every successful path)
+         any mix of them, through moves into tuples / Ok(..)
+       fields[f] = operand that holds the final value of field f (a place `base.f` for inherited fields), None if the field
+       is written on some successful paths only; bb[f] = block of that write; where = block in which the value is complete"""
+
+    def __init__(self, adt, local, fields, bbs, where):
+        self.adt = adt; self.local = local; self.fields = fields; self.bb = bbs; self.where = where
+
+    def st(self):
+        """in the shape of an aggregate statement, for agg_field_operand()"""
+        names = list(self.fields)
+        return {'dst': {'l': self.local, 'p': []}, 'rv': {'k': 'agg', 'adt': self.adt, 'fields': names, 'ops': [self.fields[n] for n in names]}}
+
+
+def _struct_holders(body, adt):
+    """locals of type `adt` whose value flows into a successful return (through tuples, Ok/Some, moves)"""
+    out = []; seen = set()
+    def visit(op, depth=0):
+        if op['k'] not in ('copy', 'move') or depth > 8: return
+        l = op['pl']['l']
+        if (l, len(op['pl']['p'])) in seen: return
+        seen.add((l, len(op['pl']['p'])))
+        if not op['pl']['p'] and _is_ty(body.locals[l], adt):
+            if l not in out: out.append(l)
+            return
+        if op['pl']['p']: return
+        for k, bi, d in body.defs_of(l):
+            if k != 'stmt' or d['dst']['p']: continue
+            rv = d['rv']
+            if rv['k'] == 'use': visit(rv['ops'][0], depth + 1)
+            elif rv['k'] == 'agg' and (rv['adt'] == 'tuple' or rv['adt'].endswith(OK_WRAP)):
+                for o in rv['ops']: visit(o, depth + 1)
+    if _is_ty(body.locals[0], adt): return [0]
+    for e, k, rst in body.ret_assignments():
+        if k == 'ok':
+            for o in rst['rv']['ops']: visit(o)
+        elif k == 'val' and rst['rv']['k'] == 'use': visit(rst['rv']['ops'][0])
+        elif k == 'val' and rst['rv']['k'] == 'agg':
+            for o in rst['rv']['ops']: visit(o)
+    return out
+
+
+def returned_struct(ctx, body, adt):
+    names = ctx.F.adt_fields(adt)
+    holders = _struct_holders(body, adt)
+    if names is None or len(holders) != 1: return None
+    adt_full = None
+    R = holders[0]
+    fields = {}; bbs = {}; where = [None]
+
+    def field_place(l, f, base_p=()):
+        return {'k': 'copy', 'pl': {'l': l, 'p': list(base_p) + [{'f': f, 'of': adt}]}}
+
+    def resolve(l, f, depth=0):
+        """(operand, bb) of the final value of field f of struct local l"""
+        if depth > 10: return field_place(l, f), None
+        writes = [(bi, st) for bi, st in body.stmts() if st['dst']['l'] == l and len(st['dst']['p']) == 1 and isinstance(st['dst']['p'][0], dict) and st['dst']['p'][0].get('f') == f]
+        if writes:
+            dom = [(bi, st) for bi, st in writes if dominates_ok(ctx, body, bi)]
+            if not dom: return None, writes[0][0]
+            # the last of the writes that lie on every successful path
+            bi, st = sorted(dom, key=lambda w: sum(1 for o in dom if body.dominates(o[0], w[0])))[-1]
+            if st['rv']['k'] == 'use': return st['rv']['ops'][0], bi
+            return None, bi
+        defs = [(k, bi, d) for k, bi, d in body.defs_of(l) if not (k == 'stmt' and d['dst']['p'])]
+        if len(defs) == 1 and defs[0][0] == 'stmt':
+            k, bi, d = defs[0]; rv = d['rv']
+            if rv['k'] == 'agg' and _is_ty(rv['adt'], adt) and f in rv['fields']:
+                op = rv['ops'][rv['fields'].index(f)]
+                if op['k'] in ('copy', 'move'):
+                    p = op['pl']['p']
+                    if len(p) == 1 and isinstance(p[0], dict) and p[0].get('f') == f and _is_ty(body.locals[op['pl']['l']], adt):
+                        return resolve(op['pl']['l'], f, depth + 1)                      # `..base`
+                return op, bi
+            if rv['k'] == 'use' and rv['ops'][0]['k'] in ('copy', 'move'):
+                src = rv['ops'][0]['pl']
+                if not src['p']: return resolve(src['l'], f, depth + 1)
+                return field_place(src['l'], f, src['p']), bi                                # the struct comes out of a tuple / payload
+        return field_place(l, f), (defs[0][1] if defs else None)
+
+    for f in names:
+        op, bi = resolve(R, f)
+        fields[f] = op; bbs[f] = bi
+    # where the value is complete: the last block among the writes / the aggregate, on the way to the return
+    cand = [b for b in bbs.values() if b is not None]
+    w = None
+    for b in cand:
+        if all(body.dominates(o, b) or o == b for o in cand): w = b
+    return StructValue(adt, R, fields, bbs, w if w is not None else (cand[0] if cand else 0))
 
 
 # ------------------------------------------------------------------------------------------------
